@@ -1,5 +1,6 @@
 #!/usr/bin/env python3
-"""Seeded property-breaking changes (written by independent sub-agents that saw only the property text).
+"""Seeded changes (written by independent sub-agents that saw only the property text): property-breaking ones (kind 'breaking': the check must
+exit 1 with a VIOLATION line) and behaviour-preserving refactors (kind 'preserving': the check must exit 0 and print no VIOLATION).
   seeded.py import <srcdir> <id>     copy patch.diff / demo.py / meta.json into /verif/seeded/<id>/
   seeded.py confirm <id>             in a scratch worktree: patch applies, pinned tests still pass, demo passes clean / fails patched
   seeded.py detect <id> [tier]       run the property's check against the patched scratch tree (VERIF_REPO), record the outcome
@@ -51,7 +52,8 @@ def confirm(i):
         tests = sh('cd %s && /venv/bin/python -m pytest -q -p no:cacheprovider --timeout=900 --continue-on-collection-errors 2>&1 | tail -1' % WT)
         patched = sh('cd %s && /venv/bin/python %s/demo.py' % (WT, d), env=env)
         m['confirmed'] = {'applies': True, 'tests_with_patch': tests.stdout.strip(), 'demo_clean_exit': clean.returncode, 'demo_patched_exit': patched.returncode,
-                          'ok': clean.returncode == 0 and patched.returncode != 0 and '52 passed' in tests.stdout,
+                          'ok': clean.returncode == 0 and '52 passed' in tests.stdout and
+                                ((patched.returncode == 0) if m.get('kind') == 'preserving' else (patched.returncode != 0)),
                           'repo_head': sh('git -C /repo rev-parse --short HEAD').stdout.strip(),
                           'ran': ['demo.py on clean worktree', 'git apply patch.diff', 'pinned pytest suite', 'demo.py on patched worktree']}
         save_meta(i, m)
@@ -71,7 +73,7 @@ def detect(i, tier='quick'):
         t0 = time.time()
         r = sh('cd %s && python3-vt -m pyvc check %s --tier %s' % (V, prop, tier), env=dict(os.environ, VERIF_REPO=WT))
         out = r.stdout
-        viol = [l for l in out.split('\n') if l.startswith('VIOLATION') or 'failed clause' in l or 'FAILED-OBLIGATION' in l]
+        viol = [l for l in out.split('\n') if l.startswith('VIOLATION') or 'failed clause' in l or 'FAILED-OBLIGATION' in l or 'bounded-only' in l or 'UNDECIDED' in l or 'CHECKER' in l]
         m.setdefault('detection', {})[tier] = {'exit': r.returncode, 'wall_s': round(time.time() - t0, 1), 'lines': viol[:8],
                                                'by_obligation': any('FAILED-OBLIGATION' in l or 'failed obligation' in l for l in viol)}
         save_meta(i, m)
@@ -90,7 +92,8 @@ if __name__ == '__main__':
         for f in ('patch.diff', 'demo.py', 'meta.json'):
             shutil.copy(os.path.join(src, f), os.path.join(d, f))
         m = load_meta(i)
-        m = {'property': m['property'], 'summary': m.get('summary'), 'needs': m.get('needs'), 'author_ran': m.get('ran')}
+        m = {'property': m['property'], 'kind': m.get('kind', 'breaking'), 'summary': m.get('summary'), 'needs': m.get('needs'), 'functions': m.get('functions'),
+             'author_ran': m.get('author_ran') or m.get('ran')}
         save_meta(i, m)
         print('imported', i)
     elif cmd == 'confirm':
